@@ -476,7 +476,10 @@ class AclMachine(Machine):
                 self.probes["abort_atomic"] += 1
             else:
                 self.probes[f"torn_after_abort[{k}]"] += 1
+                # the caller discards the torn object and rebuilds it from the exported pre-state
                 slot["acl"] = make_twin(pre_data)
+                slot["m"] = apply_model(m, {"op": "export_import"}).model
+                slot["age"] = 0
             return ename
         if exp.error is not None:
             orc = "C10.error-iff" if owner == "C10" else f"{owner}.error-expected"
